@@ -93,11 +93,16 @@ def make_kill_dataset(cfg, kill):
             self.pos, self.created = 0, 0
 
         def __iter__(self):
+            # NOT a generator function: the kill switch must fire inside iter(dataset) itself, i.e. while the worker
+            # re-creates its fetcher during the _ResumeIteration handshake of a persistent worker
             info = tud.get_worker_info()
             w = info.id if info else 0
             self.created += 1
             if kill["mode"] == "resume" and self.created == 2 and w == kill["worker"]:
                 _die()
+            return self._gen(w)
+
+        def _gen(self, w):
             items = si.shard_items(w, cfg["sizes"][w])
             while self.pos < len(items):
                 x = items[self.pos]
@@ -166,12 +171,12 @@ def gen_cases(rng, tier, drift):
             cfg["sizes"] = [rng.randint(2, 6) for _ in range(W)]
         ref = [b if isinstance(b, list) else [b] for b in si.batches_ref(cfg)]
         items = [x for b in ref for x in b]
-        modes = ["idle", "fetch", "fetch", "collate", "serialise"] if sched else ["idle", "fetch", "collate", "serialise", "init", "resume", "idle2"]
-        mode = rng.choice(modes)
+        modes = ["idle", "fetch", "fetch", "collate", "serialise"] if sched else ["resume", "init", "idle", "fetch", "resume", "collate", "serialise", "idle2"]
+        mode = rng.choice(modes) if sched else modes[(i - n_s) % len(modes)]
         if cfg["bs"] is None and mode in ("collate", "serialise"):
             mode = "fetch"
         kill = dict(mode=mode, worker=rng.randrange(W), item=rng.choice(items), after=rng.randint(0, max(0, len(ref) - 1)),
-                    how=rng.choice(["kill", "kill", "exit0", "exit3"]))
+                    how=rng.choice(["kill", "kill", "exit0", "exit3"]) if sched or mode not in ("resume", "init") else ["exit0", "kill", "exit3"][(i - n_s) // len(modes) % 3])
         if mode == "resume":
             cfg.update(kind="iter", persistent=True, bs=rng.choice([1, 2]))
             cfg["sizes"] = [rng.randint(2, 5) for _ in range(W)]
@@ -204,7 +209,12 @@ def timed(fn, deadline):
             box["r"] = ("err", type(e).__name__ + ": " + str(e)[:120])
     t = threading.Thread(target=body, daemon=True)
     t.start()
-    t.join(deadline)
+    try:
+        t.join(deadline)
+    except RuntimeError as ex:
+        # torch's SIGCHLD handler reports a dead worker by raising in the MAIN thread, i.e. here, while the call itself
+        # runs in the helper thread: that is the error being surfaced
+        return ("err", "RuntimeError: " + str(ex)[:80])
     return box.get("r", ("HANG", None))
 
 
@@ -223,6 +233,17 @@ def resume_oracle(cfg, kill, sd, k, ref, fails):
 
 
 def run_impl(c):
+    """a hang is only reported when it reproduces: the case is run a second time (the machine may be heavily loaded)"""
+    r = run_once(c)
+    if r.get("oracle") and "still blocked" in r["oracle"] and not c.get("_second"):
+        r2 = run_once(dict(c, _second=True))
+        if not (r2.get("oracle") and "still blocked" in r2["oracle"]):
+            r2["first_attempt_hung"] = r["oracle"]
+            return r2
+    return r
+
+
+def run_once(c):
     cfg, kill = c["cfg"], c["kill"]
     DIE_HOW[0] = kill.get("how", "kill")
     ref = [b if isinstance(b, list) else [b] for b in si.batches_ref(cfg)]
